@@ -1,4 +1,5 @@
 import Cardutil.Lemmas.Pin
+import Cardutil.Lemmas.Des
 /-
   C13 — PIN blocks follow ISO 9564 formats 0 and 4 and return the PIN, for 4–12 digits.
 
@@ -117,6 +118,114 @@ theorem C13_encrypted_roundtrip (E D : Bytes → Bytes) (hED : ∀ x, D (E x) = 
   obtain ⟨b4, h4, _, _, hb4⟩ := C13_iso4 pin rnd hpin hl4 hl12 hr
   simp [h0, h4, hED, hb0, hb4]
 
+/-! ### Triple DES itself (the cipher of `TdesEncryptedPinBlockMixin`), not a hypothesis -/
+
+theorem bind_eq_ok {α β} (x : Outcome α) (f : α → Outcome β) (b : β) (h : (x >>= f) = .ok b) :
+    ∃ a, x = .ok a ∧ f a = .ok b := by
+  cases x with
+  | ok a => exact ⟨a, rfl, h⟩
+  | dataError => simp [bind, Outcome.bind] at h
+  | escape k => simp [bind, Outcome.bind] at h
+  | diverge => simp [bind, Outcome.bind] at h
+
+theorem splitKey_some (key : Bytes) (hk : key.length = 8 ∨ key.length = 16 ∨ key.length = 24) :
+    ∃ k1 k2 k3, Des.splitKey key = some (k1, k2, k3) := by
+  unfold Des.splitKey
+  rcases hk with h | h | h <;> simp [h]
+
+theorem tdes_encrypts (key data : Bytes) (hk : key.length = 8 ∨ key.length = 16 ∨ key.length = 24)
+    (hd : data.length % 8 = 0) : ∃ ct, Des.tdesEcb false key data = .ok ct ∧ ct.length = data.length := by
+  obtain ⟨k1, k2, k3, hs⟩ := splitKey_some key hk
+  rw [Des.ecb_unfold false key data k1 k2 k3 hs hd]
+  refine ⟨_, rfl, ?_⟩
+  have hn : data.length = 8 * (data.length / 8) := by omega
+  obtain ⟨_, hlen, _⟩ := Des.blocks8_spec (data.length / 8) data hn
+  simp only [Bool.false_eq_true, if_false]
+  rw [Des.flatMap_length8 _ _ (fun x _ => Des.encB_length k1 k2 k3 x), hlen]
+  omega
+
+theorem nibblesToBytes_lt : ∀ (ns : List Nat), (∀ n ∈ ns, n < 16) → ∀ x ∈ nibblesToBytes ns, x < 256
+  | [], _ => by intro x hx; simp [nibblesToBytes] at hx
+  | [_], _ => by intro x hx; simp [nibblesToBytes] at hx
+  | a :: b :: rest, h => by
+    intro x hx
+    simp only [nibblesToBytes, List.mem_cons] at hx
+    rcases hx with rfl | hx
+    · have := h a (by simp); have := h b (by simp); omega
+    · exact nibblesToBytes_lt rest (fun n hn => h n (by simp [hn])) x hx
+
+/-- C13 with the cipher INSIDE the model: for every Triple DES key of 8, 16 or 24 bytes, every PIN of 4..12 digits and
+    every PAN of 13 or more digits, the format-0 block is encrypted to 8 bytes, decryption under the same key returns
+    the block, and rebuilding returns the PIN -/
+theorem C13_tdes_iso0 (key : Bytes) (hk : key.length = 8 ∨ key.length = 16 ∨ key.length = 24)
+    (pin pan : Text) (hpin : AllDigits pin) (hl4 : 4 ≤ pin.length) (hl12 : pin.length ≤ 12)
+    (hpan : AllDigits pan) (hpl : 13 ≤ pan.length) :
+    ∃ blk ct, iso0ToBytes pin pan = .ok blk ∧ Des.tdesEcb false key blk = .ok ct ∧ ct.length = 8 ∧
+      Des.tdesEcb true key ct = .ok blk ∧ iso0FromBytes blk pan = .ok pin := by
+  obtain ⟨blk, h0, hlen, hnib, hback⟩ := C13_iso0 pin pan hpin hl4 hl12 hpan hpl
+  obtain ⟨ct, hct, hctl⟩ := tdes_encrypts key blk hk (by omega)
+  have hbytes : Des.IsBytes blk := by
+    have h := h0
+    unfold iso0ToBytes at h
+    obtain ⟨p1, _, h⟩ := bind_eq_ok _ _ _ h
+    obtain ⟨p2, _, h⟩ := bind_eq_ok _ _ _ h
+    simp only at h
+    split at h
+    · simp only [Outcome.ok.injEq] at h
+      rw [← h]
+      exact toDigits_lt (by decide) 8 _
+    · simp at h
+  exact ⟨blk, ct, h0, hct, by omega, Des.tdesEcb_dec_enc key blk ct hbytes hct, hback⟩
+
+/-- … and format 4 under the Triple DES mix-in (two ECB blocks) -/
+theorem C13_tdes_iso4 (key : Bytes) (hk : key.length = 8 ∨ key.length = 16 ∨ key.length = 24)
+    (pin : Text) (rnd : Nat) (hpin : AllDigits pin) (hl4 : 4 ≤ pin.length) (hl12 : pin.length ≤ 12) (hr : rnd < 2 ^ 64) :
+    ∃ blk ct, iso4ToBytes pin rnd = .ok blk ∧ Des.tdesEcb false key blk = .ok ct ∧ ct.length = 16 ∧
+      Des.tdesEcb true key ct = .ok blk ∧ iso4FromBytes blk = .ok pin := by
+  obtain ⟨blk, h4, hlen, hnib, hback⟩ := C13_iso4 pin rnd hpin hl4 hl12 hr
+  obtain ⟨ct, hct, hctl⟩ := tdes_encrypts key blk hk (by omega)
+  have hbytes : Des.IsBytes blk := by
+    have h := h4
+    unfold iso4ToBytes unhexlify at h
+    split at h
+    · rename_i ns hp
+      split at h
+      · simp only [Outcome.ok.injEq] at h
+        rw [← h]
+        apply nibblesToBytes_lt
+        intro n hn
+        have : ∀ (t : Text) (ms : List Nat), parseHexText t = some ms → ∀ m ∈ ms, m < 16 := by
+          intro t
+          induction t with
+          | nil => intro ms h; simp [parseHexText] at h; subst h; simp
+          | cons c t ih =>
+            intro ms h
+            rw [parseHexText_cons] at h
+            cases hc : hexNibble? c with
+            | none => simp [hc] at h
+            | some v =>
+              cases ht : parseHexText t with
+              | none => simp [hc, ht] at h
+              | some vs =>
+                simp [hc, ht] at h
+                subst h
+                intro m hm
+                simp at hm
+                rcases hm with rfl | hm
+                · unfold hexNibble? at hc
+                  split at hc
+                  · simp at hc; omega
+                  · split at hc
+                    · simp at hc; omega
+                    · split at hc
+                      · simp at hc; omega
+                      · simp at hc
+                · exact ih vs ht m hm
+        exact this _ ns hp n hn
+      · simp at h
+    · simp at h
+  exact ⟨blk, ct, h4, hct, by omega, Des.tdesEcb_dec_enc key blk ct hbytes hct, hback⟩
+
 /-- non-vacuity and a known answer (module documentation): PIN 1234, PAN 1111222233334444 -/
 example : AllDigits [49, 50, 51, 52] ∧ 4 ≤ [49, 50, 51, 52].length ∧ [49, 50, 51, 52].length ≤ 12 := by
   refine ⟨?_, by decide, by decide⟩
@@ -127,5 +236,9 @@ example : AllDigits [49, 50, 51, 52] ∧ 4 ≤ [49, 50, 51, 52].length ∧ [49, 
   .ok [0x04, 0x12, 0x26, 0xdd, 0xdc, 0xcc, 0xcb, 0xbb]
 #guard (iso4ToBytes [49,50,51,52,53,54,55,56,57,48,49,50] 1).bind (fun b => .ok (b.take 8)) ==
   .ok [0x4c, 0x12, 0x34, 0x56, 0x78, 0x90, 0x12, 0xaa]
+
+-- the module documentation's encrypted block: PIN 1234, PAN 1111222233334444, key 00 x 16 -> 4c0906d10308871a
+#guard (iso0ToBytes [49,50,51,52] [49,49,49,49,50,50,50,50,51,51,51,51,52,52,52,52]).bind
+    (Des.tdesEcb false (List.replicate 16 0)) == .ok [0x4c, 0x09, 0x06, 0xd1, 0x03, 0x08, 0x87, 0x1a]
 
 end Cardutil.Props.C13
